@@ -391,13 +391,17 @@ def c03(ctx: Ctx) -> None:
         if n.kind not in ('call', 'inline_enter') or not isinstance(n.ast, ast.Call):
             continue
         c = n.ast
+        from ..dataflow import unalias as _ua0
         pre = r.loader_ref(c.func)
+        if pre is None:
+            pre = r.loader_ref(_ua0(G, n, c.func))
         if pre is not None and c.args:
             awaited = (n.kind == 'inline_enter' and bool(n.meta.get('awaited'))) or isinstance(parent(c), ast.Await)
             loader_apps.append((n, c.args[-1], awaited, 'call'))
         elif G.res.path(c.func) == 'builtins.map' and len(c.args) == 2 and r.loader_ref(resolve(G, n, c.args[0], depth=2)) is not None:
             loader_apps.append((n, c.args[1], False, 'map'))
-        elif G.res.path(c.func) == 'builtins.map' and len(c.args) == 2 and r.loader_ref(c.args[0]) is not None:
+        elif G.res.path(c.func) == 'builtins.map' and len(c.args) == 2 and (
+                r.loader_ref(c.args[0]) is not None or r.loader_ref(_ua0(G, n, c.args[0])) is not None):
             loader_apps.append((n, c.args[1], False, 'map'))
 
     def flows_into_loader(get_ast: ast.AST, awaited_only: bool = False, form: Optional[str] = None) -> bool:
@@ -464,6 +468,14 @@ def c03(ctx: Ctx) -> None:
                 pn = next((x for x in G.nodes if x.kind == 'call' and x.ast is par), None)
                 rc = _ua(G, pn, par.func.value) if pn is not None else par.func.value
                 ok = ok or (isinstance(rc, ast.Name) and rc.id == L)
+            # ... or the map travels on (returned by a helper, held in a local) into L.extend(...)
+            for x in G.nodes:
+                if x.kind == 'call' and isinstance(x.ast.func, ast.Attribute) and x.ast.func.attr == 'extend' and x.ast.args:
+                    rc = _ua(G, x, x.ast.func.value)
+                    if isinstance(rc, ast.Name) and rc.id == L:
+                        rv2 = resolve(G, x, x.ast.args[0])
+                        if any(_pos(y) == _pos(n.ast) for y in ast.walk(rv2)):
+                            ok = True
         ctx.check('C03-S4', f'drained producers {norm(d.ast)} -> map(loader, ...) -> loader list', G.loc(d), ok,
                   'every drained producer becomes a loader coroutine in the gather list',
                   'drained producers are not all loaded', construct=construct_key('BUFFER.daemon', 'drain not loaded'))
@@ -647,6 +659,11 @@ def _implied_facts(g: CFG, b: Node, truth: bool, r: BufferRoles, cancelp: str) -
         if isinstance(e, ast.UnaryOp) and isinstance(e.op, ast.Not):
             v = ev(e.operand, env)
             return None if v is None else not v
+        if isinstance(e, ast.Call) and isinstance(e.func, ast.Name) and e.func.id == 'bool' and len(e.args) == 1 and not e.keywords:
+            return ev(e.args[0], env)
+        if isinstance(e, ast.Compare) and len(e.ops) == 1 and isinstance(e.comparators[0], ast.Constant) and e.comparators[0].value is None \
+                and isinstance(e.left, ast.Attribute) and g.res.path(e.left) == r.TIMER and isinstance(e.ops[0], (ast.Is, ast.IsNot)):
+            return env['timer'] if isinstance(e.ops[0], ast.IsNot) else not env['timer']
         if isinstance(e, ast.BoolOp):
             vals = [ev(v, env) for v in e.values]
             if any(v is None for v in vals):
@@ -882,12 +899,20 @@ def c07(ctx: Ctx) -> None:
             targets = [gg.exit] + [n for n in gg.nodes if n.kind in ('loop_head', 'implicit_return', 'inline_exit')]
             w = find_path(gg, [h], targets, edge_ok=lambda e: not guard_edge(e))
             host = h.meta.get('inlined_from') or gg.scope.qualname
-            role = r.role_of(host)
+            # the role of a handler is what it guards, wherever a refactoring has put it
+            if gg is G and any(f in r.timed_get for f in feeders):
+                role = 'PROCESS'
+            elif gg is G and any(f in r.callfunc for f in feeders):
+                role = 'RUNNER'
+            elif gg is r.gload:
+                role = 'LOADER'
+            else:
+                role = r.role_of(host)
             roles_with_offender.add(role)
             inst = f'{role} ({host}): except {norm(h.ast.type) if h.ast.type else "(bare)"} around {sorted({norm(x.ast)[:40] for x in feeders})}'
             ctx.check('C07-W9', inst, gg.loc(h), w is None, 're-raises the cancellation',
                       'a CancelledError aimed at the daemon is swallowed here: the `while True` daemon goes on and loop shutdown never finishes',
-                      witness=render(gg, w), construct=construct_key('BUFFER.' + role, 'swallows cancel', h.ast.type or 'bare'))
+                      witness=render(gg, w), construct=construct_key('BUFFER.' + role, 'swallows cancel', '/'.join(sorted(h.meta.get('classes') or ['bare']))))
     for role in ('ROOT', 'PROCESS', 'RUNNER', 'LOADER'):
         if role not in roles_with_offender:
             ctx.holds('C07-W9', f'{role}: no handler catches a cancellation delivered at a suspension point', f'{FILE}:{r.root.lineno}')
